@@ -194,6 +194,16 @@ class C02Oracle(Oracle):
         for key in ("lab", "src", "dst"):
             if isinstance(op.get(key), int) and not self.plain(self.world["labware"][op[key]]["name"]):
                 return False
+        kw = {k: v for k, v in (op.get("kw") or {}).items() if k != "label"}
+        for k, v in kw.items():
+            # pass-through arguments in any but their plainest form (a list of tips in arbitrary order, ...) may be
+            # refused for their own sake by a stricter library
+            if k == "tip" and not (isinstance(v, int) and not isinstance(v, bool)) and not isinstance(v, dict):
+                return False
+            if k in ("liquid_class", "rack_id", "rack_type", "tube_id", "src_rack_id", "dst_rack_id", "src_rack_type", "dst_rack_type") and not (v == "" or self.plain(v)):
+                return False
+        if op["op"] == "transfer" and op.get("wash", 1) is None:
+            return False
         if op["op"] in ("transfer",) and not self.world["worklist"]["auto_split"]:
             return False
         if op["op"] in ("evo_aspirate", "evo_dispense"):
